@@ -641,7 +641,9 @@ class PDFStandardSecurityHandlerV5(PDFStandardSecurityHandlerV4):
         return None
 
     def _normalize_password(self, password: str) -> bytes:
-        if self.r == 6:
+        if self.r in (5, 6):
+            # Both revisions prepare the password with SASLprep (Adobe
+            # Supplement to ISO 32000, algorithm 3.2a; ISO 32000-2, 7.6.4.3.3)
             # saslprep expects non-empty strings, apparently
             if not password:
                 return b""
